@@ -78,9 +78,9 @@ pub fn extract_fs(ctx: &mut Ctx) {
         let fname = |rng: &mut rand_chacha::ChaCha8Rng| ["a", "b.txt", "d/x.txt", "d/e/y", "l", "l/x.txt", "d", "h", "k/z"][rng.gen_range(0..9)].to_string();
         let k = rng.gen_range(1..6);
         let mut es: Vec<XE> = vec![];
-        let scenario = if case < 8 { case } else { rng.gen_range(0..12) }; // the first eight cases are the witnesses of the (now repaired) escapes and of links carrying permissions / times
-        let keep_perm = scenario == 5 || (scenario > 7 && rng.gen_bool(0.3));
-        let keep_time = scenario == 6 || scenario == 7 || (scenario > 7 && rng.gen_bool(0.4));
+        let scenario = if case < 10 { case } else { rng.gen_range(0..14) }; // the first ten cases are the witnesses of the (now repaired) escapes and of links carrying permissions / times
+        let keep_perm = scenario == 5 || scenario == 9 || (scenario > 9 && rng.gen_bool(0.3));
+        let keep_time = scenario == 6 || scenario == 7 || (scenario > 9 && rng.gen_bool(0.4));
         for i in 0..k {
             let e = match (scenario, i) {
                 (0, 0) => XE { name: "l".into(), kind: 2, content: format!("{root}/outside").into_bytes(), perm: None, time: None },          // absolute link to outside dir
@@ -93,6 +93,9 @@ pub fn extract_fs(ctx: &mut Ctx) {
                 (4, 1) => XE { name: "l".into(), kind: 0, content: b"through".to_vec(), perm: None, time: None },
                 (6, 0) => XE { name: "l".into(), kind: 2, content: b"../outside/secret".to_vec(), perm: None, time: Some(1_000_000_123) },  // link entry carrying times, to an outside file
                 (7, 0) => XE { name: "l".into(), kind: 2, content: b"../outside".to_vec(), perm: None, time: Some(1_000_000_456) },         // … to an outside directory
+                // a directory entry (then a file in it) where a link to a directory (8) / a directory with its own mode (9) already is
+                (8, 0) | (9, 0) => XE { name: "d".into(), kind: 1, content: vec![], perm: Some(0o755), time: None },
+                (8, 1) | (9, 1) => XE { name: "d/f.txt".into(), kind: 0, content: b"payload".to_vec(), perm: None, time: None },
                 (5, 0) => XE { name: "l".into(), kind: 2, content: b"../outside/secret".to_vec(), perm: Some(0o777), time: None },  // link entry carrying a permission
                 _ => {
                     let kind = [0u8, 0, 0, 1, 2, 3][rng.gen_range(0..6)];
@@ -109,8 +112,14 @@ pub fn extract_fs(ctx: &mut Ctx) {
             es.push(e);
         }
         // pre-existing objects at some destinations
-        let overwrite = rng.gen_bool(0.4);
-        if rng.gen_bool(0.5) {
+        let overwrite = scenario != 8 && scenario != 9 && rng.gen_bool(0.4);
+        if scenario == 8 {
+            let _ = std::os::unix::fs::symlink("../outside", sbx.path("out/d"));
+        } else if scenario == 9 {
+            std::fs::create_dir_all(sbx.path("out/d")).unwrap();
+            use std::os::unix::fs::PermissionsExt;
+            std::fs::set_permissions(sbx.path("out/d"), std::fs::Permissions::from_mode(0o700)).unwrap();
+        } else if rng.gen_bool(0.5) {
             let victim = EntryName::from(es[rng.gen_range(0..es.len())].name.as_str()).as_str().to_string();
             if !victim.is_empty() {
                 let p = sbx.path("out").join(&victim);
@@ -189,8 +198,8 @@ pub fn extract_fs(ctx: &mut Ctx) {
         if !overwrite {
             for (p, n) in before_m.iter().filter(|(p, _)| p.starts_with("out/")) {
                 let same = match (n, after.get(p)) {
-                    (Node::File { content: c1, ino: i1, .. }, Some(Node::File { content: c2, ino: i2, .. })) => c1 == c2 && i1 == i2,
-                    (Node::Dir { .. }, Some(Node::Dir { .. })) => true,
+                    (Node::File { content: c1, ino: i1, mode: m1, .. }, Some(Node::File { content: c2, ino: i2, mode: m2, .. })) => c1 == c2 && i1 == i2 && m1 == m2,
+                    (Node::Dir { mode: m1 }, Some(Node::Dir { mode: m2 })) => m1 == m2,
                     (Node::Symlink { target: t1 }, Some(Node::Symlink { target: t2 })) => t1 == t2,
                     _ => false,
                 };
